@@ -14,7 +14,7 @@ use crate::gen::*;
 use crate::refmodel::framing::{decide, Framing};
 use crate::refmodel::reqvalid::{self, ReqFacts};
 
-pub const RULE: &str = "scenarios = requests (9 methods x {1.0,1.1} x Expect {no,yes} x send-body-despite-method {no,yes} x framing header {none, content-length: 3, content-length: 0, transfer-encoding: chunked}; rejected ones are kept and must stay in SendRequest; plus requests with 64..1000 original headers whose head must come out completely) x server behaviours (interim 100 in time / late via give-up, a stray 100 ahead of the answer to a request without Expect, silent server, refusal bare 403 / 403 with fields, final status {200,204,205,300,304,404,302 with Location,302 without,307 with Location,399 with Location} x version {1.0,1.1} x body {no framing header, Content-Length: 0, Content-Length: 3, chunked}; 200/302/399 over HTTP/1.1 also with an empty-valued field ahead of all others); coarse I/O (whole message or cuts after the status line / after the head / mid-body; thorough: 1-byte arrivals too); in every state: all permitted calls incl. proceed() on a clone whether or not ready, head write after completion, finishing write after the end, reads after the end, as_new_flow with both policies (twice) followed by a complete second exchange on the new flow; successor state compared with the documented graph at every edge; every state must reach Cleanup; plus repetition: as_new_flow() called four times with alternating policies at each of three hops of a redirect chain (4 methods x 3 statuses), and in 9 canonical exchanges every state's main call repeated 8 times after it has given its answer (head write, finishing / further body writes and direct-write reports, try_response, reads after the end, as_new_flow), the exchange then completed and the states passed through compared with the straight run; plus interleaving: all 25 ordered pairs of five exchanges (HTTP/1.0 answers, Expect uploads, a redirect, a refusal) driven alternately on one thread. distinct = distinct (scenario, final observation)";
+pub const RULE: &str = "scenarios = requests (9 methods x {1.0,1.1} x Expect {no,yes} x send-body-despite-method {no,yes} x framing header {none, content-length: 3, content-length: 0, transfer-encoding: chunked}; rejected ones are kept and must stay in SendRequest; plus requests with 64..1000 original headers whose head must come out completely) x server behaviours (interim 100 in time / late via give-up, a stray 100 ahead of the answer to a request without Expect, silent server, refusal bare 403 / 403 with fields, final status {200,204,205,300,304,404,302 with Location,302 without,307 with Location,399 with Location} x version {1.0,1.1} x body {no framing header, Content-Length: 0, Content-Length: 3, chunked}; 200/302/399 over HTTP/1.1 also with an empty-valued field ahead of all others; 200 also with Transfer-Encoding ', chunked' and with an empty Transfer-Encoding value next to Content-Length); coarse I/O (whole message or cuts after the status line / after the head / mid-body; thorough: 1-byte arrivals too); in every state: all permitted calls incl. proceed() on a clone whether or not ready, head write after completion, finishing write after the end, reads after the end, as_new_flow with both policies (twice) followed by a complete second exchange on the new flow; successor state compared with the documented graph at every edge; every state must reach Cleanup; plus repetition: as_new_flow() called four times with alternating policies at each of three hops of a redirect chain (4 methods x 3 statuses), and in 9 canonical exchanges every state's main call repeated 8 times after it has given its answer (head write, finishing / further body writes and direct-write reports, try_response, reads after the end, as_new_flow), the exchange then completed and the states passed through compared with the straight run; plus interleaving: all 25 ordered pairs of five exchanges (HTTP/1.0 answers, Expect uploads, a redirect, a refusal) driven alternately on one thread. distinct = distinct (scenario, final observation)";
 
 const METHODS: [&str; 9] = ["GET", "HEAD", "POST", "PUT", "DELETE", "CONNECT", "OPTIONS", "TRACE", "PATCH"];
 
@@ -54,6 +54,9 @@ fn scope(k: &str) -> bool {
         // a head write after completion that emits body bytes ends the body while still in SendRequest:
         // the flow then arrives in SendBody with a finished body (defect F3 was reported here first)
         || k == "head-write:emits-after-complete"
+        // a flow that was shown the complete response head and stays in RecvResponse never lands in the
+        // successor state the graph prescribes "for what has been received so far"
+        || k.starts_with("try-response:complete-head-not-accepted")
 }
 
 fn cut_points(srv: &[ServerMsg]) -> Vec<usize> {
@@ -165,6 +168,19 @@ pub fn build(tier: Tier) -> Vec<Arc<ExchCfg>> {
                         let mut padded = fm.clone();
                         padded.fields.insert(0, ("X-Pad".into(), Vec::new()));
                         finals.push(padded);
+                    }
+                    if ver == "1.1" && status == 200 && (body == "chunked" || body == "cl3") {
+                        // list syntax at its edges in the field that selects the body state: an empty first element
+                        // before the coding; an empty Transfer-Encoding value next to a Content-Length
+                        let mut odd = fm.clone();
+                        if body == "chunked" {
+                            for f in odd.fields.iter_mut().filter(|f| f.0.eq_ignore_ascii_case("transfer-encoding")) {
+                                f.1 = b", chunked".to_vec();
+                            }
+                        } else {
+                            odd.fields.insert(0, ("Transfer-Encoding".into(), Vec::new()));
+                        }
+                        finals.push(odd);
                     }
                     finals.push(fm);
                 }
